@@ -1424,6 +1424,20 @@ def m_char_is_digit(e, st, a, ctx):
     c = val(e, st, a[0]); return simp(zand(c >= 48, c <= 57))
 
 
+@model(r'std::slice::<impl \[(std::string::String|&str)\]>::join::<&str>', r'std::slice::<impl \[.*\]>::concat::<.*>')
+def m_slice_join(e, st, a, ctx):
+    """items joined with the separator (concat: no separator)"""
+    v = as_vec(e, st, a[0]); sep = as_str(e, st, a[1]) if len(a) > 1 and '::join::' in ctx[0] else S(0, [])
+    out = S(0, [])
+    for i, x in enumerate(v.it):
+        c = simp(i < v.len)
+        if c is False: break
+        piece = as_str(e, st, x)
+        nxt = str_concat(str_concat(out, sep), piece) if i > 0 else piece
+        out = nxt if c is True else merge(c, nxt, out)
+    return out
+
+
 @model(r'core::str::<impl str>::bytes')
 def m_str_bytes(e, st, a, ctx):
     """bytes of an ASCII string = its characters (model bound: all characters < 128, stated as an obligation)"""
